@@ -19,12 +19,13 @@ from autobahn.wamp.types import CallOptions, CallResult, ComponentConfig, Publis
 
 URI = {"publish": "com.myapp.enc.topic1", "call": "com.myapp.enc.proc1"}
 URI2 = {"publish": "com.myapp.enc.topic2", "call": "com.myapp.enc.proc2"}
-SHAPES = [([], {}), ([7], {}), ([1, "two"], {}), ([], {"k": [1, {"n": "ü𝄞"}]}), ([{"a": [1, 2, None]}, 3.5], {"x": True, "y": None})]
+SHAPES = [([], {}), ([7], {}), ([1, "two"], {}), ([], {"k": [1, {"n": "ü𝄞"}]}), ([{"a": [1, 2, None]}, 3.5], {"x": True, "y": None}),
+          ([b"\x01\x02\xff"], {}), ([1, {"blob": [b"", b"\x00\xfe"]}], {"bin": b"\x00binary\xff", "t": "text"})]
 
 
 class T:
-    def __init__(self):
-        self._serializer = JsonSerializer()
+    def __init__(self, ser=None):
+        self._serializer = ser or JsonSerializer()
         self.sent = []
         self.transport_details = types.TransportDetails()
 
@@ -49,8 +50,20 @@ _WIRE = JsonSerializer()
 
 def rx(sess, msg):
     """what the router sends reaches the session the way it would on a wire: serialised and parsed again"""
-    data, _ = _WIRE.serialize(msg)
-    sess.onMessage(_WIRE.unserialize(data)[0])
+    wire = getattr(sess._transport, "_serializer", None) or _WIRE
+    data, _ = wire.serialize(msg)
+    sess.onMessage(wire.unserialize(data)[0])
+
+
+def related(uri, rng):
+    """another URI covered by the same key: unrelated, a string prefix of `uri`, an extension of it"""
+    return rng.choice([None, uri[:-1], uri + "_x", uri + ".sub"])
+
+
+def unencodable():
+    """a value the transport serializer (CBOR) carries but the serializer inside the crypto box (JSON) does not"""
+    import datetime
+    return datetime.datetime(2020, 2, 3, 4, 5, 6, tzinfo=datetime.timezone.utc)
 
 
 class EncDefinedError(Exception):
@@ -68,10 +81,10 @@ class Sess(ApplicationSession):
         self.errors.append(msg)
 
 
-def joined():
+def joined(ser=None):
     s = Sess(ComponentConfig(realm="realm1"))
     s.errors = []
-    t = T()
+    t = T(ser)
     s.onOpen(t)
     fw.settle()
     s.onMessage(message.Welcome(77, {"broker": RoleBrokerFeatures(), "dealer": RoleDealerFeatures()}))
@@ -130,13 +143,20 @@ def one(dir_, layout, fault, shape, pos, rng):
             wrong_at_a = True
         else:
             wrong_at_a = False
-        A, ta = joined()
-        B, tb = joined()
+        ser = None
+        if fault == "unencodable":
+            from autobahn.wamp.serializer import CBORSerializer
+            ser = CBORSerializer
+        A, ta = joined(ser and ser())
+        B, tb = joined(ser and ser())
         A.set_payload_codec(ka)
         B.set_payload_codec(kb)
         got = {}
         kind = "publish" if dir_ == "publish" else "call"
-        uri, uri2 = URI[kind], URI2[kind]
+        uri = URI[kind]
+        uri2 = (related(uri, rng) if fault == "uriswap" else None) or URI2[kind]
+        if fault == "unencodable":
+            return unenc(dir_, layout, shape, pos, A, ta, B, tb, uri, obs)
         if dir_ == "publish":
             def h1(*a, **kw):
                 got.setdefault("calls", []).append(("h1", list(a), dict(kw)))
@@ -246,7 +266,7 @@ def one(dir_, layout, fault, shape, pos, rng):
 
             def ep2(*a, **kw):
                 got.setdefault("calls2", []).append((list(a), dict(kw)))
-                return None
+                return CallResult(*args, **kwargs) if (dir_ == "result" and fault == "uriswap") else None
             for i, (e, u) in enumerate(((ep, uri), (ep2, uri2))):
                 if pattern and i == 0:
                     B.register(e, "com.myapp.enc.proc", options=RegisterOptions(match="prefix"))
@@ -304,12 +324,24 @@ def one(dir_, layout, fault, shape, pos, rng):
                 else:
                     err_uri = rm.error
                     if dir_ == "error" and fault == "uriswap" and rp is not None:
-                        err_uri = "com.myapp.enc.error2"
+                        err_uri = related(rm.error, rng) or "com.myapp.enc.error2"
                     fwd = message.Error(message.Call.MESSAGE_TYPE, cm.request, err_uri, args=rm.args, kwargs=rm.kwargs, payload=rp, enc_algo=rm.enc_algo,
                                         enc_key=rm.enc_key, enc_serializer=rm.enc_serializer) if rp is not None else \
                         message.Error(message.Call.MESSAGE_TYPE, cm.request, err_uri, args=rm.args, kwargs=rm.kwargs)
-                if dir_ == "result" and fault == "uriswap":
-                    pass      # a RESULT has no URI of its own: the call's procedure is the envelope; not applicable
+                if dir_ == "result" and fault == "uriswap" and rp is not None:
+                    # a RESULT has no URI of its own: the envelope is the pending call.  The router hands the caller the
+                    # genuine (recorded) result of a call to another procedure under the same key
+                    n0 = len(tb.sent)
+                    fut2 = A.call(uri2, *args, **kwargs)
+                    txaio.add_callbacks(fut2, lambda r: None, lambda f: None)
+                    fw.settle()
+                    cm2 = ta.sent[-1][0]
+                    rx(B, message.Invocation(901, 201, payload=cm2.payload, enc_algo=cm2.enc_algo, enc_key=cm2.enc_key, enc_serializer=cm2.enc_serializer))
+                    fw.settle()
+                    y2 = [m for m, _ in tb.sent[n0:] if isinstance(m, message.Yield)]
+                    if len(y2) != 1 or y2[0].payload is None:
+                        raise RuntimeError("no encrypted result of the other procedure to swap in: %r" % (tb.sent[n0:],))
+                    fwd = message.Result(cm.request, payload=y2[0].payload, enc_algo=y2[0].enc_algo, enc_key=y2[0].enc_key, enc_serializer=y2[0].enc_serializer)
                 rx(A, fwd)
                 fw.settle()
             if "ok" in res:
@@ -348,15 +380,87 @@ def one(dir_, layout, fault, shape, pos, rng):
     return dict(ev="e2e", dir=dir_, layout=layout, fault=fault, pos=pos, shape=repr(shape)[:50], obs=obs)
 
 
+def unenc(dir_, layout, shape, pos, A, ta, B, tb, uri, obs):
+    """the payload to be encrypted contains a value the box's inner serializer cannot encode (the transport's could):
+    whatever else happens, it must not travel in clear"""
+    args, kwargs = copy.deepcopy(shape)
+    kwargs["when"] = unencodable()
+    got = {}
+    sent0 = (len(ta.sent), len(tb.sent))
+
+    def leaked():
+        for m, _ in ta.sent[sent0[0]:] + tb.sent[sent0[1]:]:
+            if "when" in (getattr(m, "kwargs", None) or {}):
+                return True
+        return False
+    if dir_ == "publish":
+        B.subscribe(lambda *a, **kw: got.setdefault("calls", []).append(1), uri)
+        fw.settle()
+        rx(B, message.Subscribed(tb.sent[-1][0].request, 100))
+        fw.settle()
+        sent0 = (len(ta.sent), len(tb.sent))
+        try:
+            A.publish(uri, *args, **kwargs)
+        except Exception:  # noqa
+            pass
+        fw.settle()
+        obs["call"] = "na"
+    else:
+        def ep(*a, **kw):
+            got.setdefault("calls", []).append(1)
+            if dir_ == "error":
+                raise ApplicationError("com.myapp.enc.error1", *args, **kwargs)
+            if dir_ == "result":
+                return CallResult(*args, **kwargs)
+            return None
+        B.register(ep, uri)
+        fw.settle()
+        rx(B, message.Registered(tb.sent[-1][0].request, 200))
+        fw.settle()
+        sent0 = (len(ta.sent), len(tb.sent))
+        res = {}
+        try:
+            fut = A.call(uri, *args, **kwargs) if dir_ == "call" else A.call(uri, 1)
+            txaio.add_callbacks(fut, lambda r: res.setdefault("ok", r), lambda f: res.setdefault("err", f.value if hasattr(f, "value") else f))
+        except Exception:  # noqa
+            res["refused"] = True
+        fw.settle()
+        calls = [m for m, _ in ta.sent[sent0[0]:] if isinstance(m, message.Call)]
+        if calls:
+            cm = calls[0]
+            if cm.payload is not None:
+                rx(B, message.Invocation(900, 200, payload=cm.payload, enc_algo=cm.enc_algo, enc_key=cm.enc_key, enc_serializer=cm.enc_serializer))
+            else:
+                rx(B, message.Invocation(900, 200, args=cm.args, kwargs=cm.kwargs))
+            fw.settle()
+            for rm, _ in tb.sent[sent0[1]:]:
+                if isinstance(rm, message.Yield):
+                    rx(A, message.Result(cm.request, args=rm.args, kwargs=rm.kwargs, payload=rm.payload, enc_algo=rm.enc_algo, enc_key=rm.enc_key,
+                                         enc_serializer=rm.enc_serializer))
+                elif isinstance(rm, message.Error):
+                    rx(A, message.Error(message.Call.MESSAGE_TYPE, cm.request, rm.error, args=rm.args, kwargs=rm.kwargs, payload=rm.payload,
+                                        enc_algo=rm.enc_algo, enc_key=rm.enc_key, enc_serializer=rm.enc_serializer))
+                fw.settle()
+        obs["call"] = "refused" if "refused" in res else "ok" if "ok" in res else "failed" if "err" in res else "pending"
+    obs["clearOnWire"] = leaked()
+    obs["encOnWire"] = not obs["clearOnWire"]
+    obs["delivered"] = "none" if (dir_ in ("publish", "call") and not got.get("calls")) or dir_ in ("result", "error") and obs["call"] != "ok" else "altered"
+    obs["alive"] = A._session_id is not None and B._session_id is not None and not getattr(ta, "closed", False) and not getattr(tb, "closed", False)
+    fw.reset()
+    return dict(ev="e2e", dir=dir_, layout=layout, fault="unencodable", pos=pos, shape=repr(shape)[:50], obs=obs)
+
+
 def main():
     inp = driver_in()
     rng = random.Random(int(os.environ.get("VERIF_SEED", "0")) * 17 + 3)
     traces = []
     for dir_ in ("publish", "call", "result", "error", "progress"):
         for layout in ("default", "prefix", "split", "nokey"):
-            for fault in ("none", "tamper", "wrongkey", "uriswap"):
-                if fault == "uriswap" and dir_ in ("result", "progress"):
-                    continue        # a RESULT carries no URI: its envelope is the pending call itself
+            for fault in ("none", "tamper", "wrongkey", "uriswap", "unencodable"):
+                if fault == "uriswap" and dir_ == "progress":
+                    continue
+                if fault == "unencodable" and (dir_ == "progress" or layout == "nokey"):
+                    continue
                 for si, shape in enumerate(SHAPES):
                     positions = [0]
                     if fault == "tamper":
